@@ -122,6 +122,19 @@ def systematic_cases():
         for k in range(0, 9):
             out.append({"store": store1, "ops": list(defs3) + [["arm_read", k, kind], ["set", R("a"), ["plain", 7], "sv"], ["disarm"],
                                                                ["set", R("a"), ["plain", 7], "item"]]})
+    # a definition whose TARGET has a computed key (out[c['sel']] = ...): the update also reads the key location, and a fault
+    # while the key is evaluated (every exception class, AttributeError among them) must reach the caller like any other
+    O = lambda k: ["c", ["i", "out"], ["i", k]]
+    store4 = [["c", {"kind": "dict", "items": [["a", 0], ["b", 0], ["d", 0], ["e", 0], ["sel", "\x02s:x"],
+                                               ["out", {"kind": "dict", "items": [["x", 0], ["y", 0]]}]]}]]
+    defs4 = [["set", R("b"), ["expr", ["bin", "+", ["ref", R("a")], ["const", 1]]]],
+             ["set", ["c", ["i", "out"], ["k", R("sel")]], ["expr", ["bin", "*", ["ref", R("b")], ["const", 2]]]],
+             ["set", R("d"), ["expr", ["bin", "+", ["ref", O("x")], ["ref", R("a")]]]],
+             ["set", R("e"), ["expr", ["bin", "-", ["ref", R("d")], ["const", 1]]]]]
+    for kind in sorted(set(mc.FAULT_KINDS)):
+        for k in range(0, 12):
+            out.append({"store": store4, "ops": list(defs4) + [["arm_read", k, kind], ["set", R("a"), ["plain", 7], "sv"], ["disarm"],
+                                                               ["set", R("a"), ["plain", 7], "item"]]})
     for store, defs, nmax in ((store1, defs1, 7), (store2, defs2, 5)):
         for k in range(nmax):
             for k2 in (None, 0, k):
